@@ -60,13 +60,20 @@ func VerifC03RecvOutcome() {
 		rt.Known("H1-callback-effects-survive-error-ack", committed != 0)
 		rt.Assert("R1-error-ack-leaves-no-effect", committed == 0)
 	} else {
-		rt.Reach("delivered-path")
-		rt.Assert("R2-delivered-effects-committed-once", committed == 1 && ncb == 1)
 		var result packettypes.Result
 		rt.Assume(len(w.evm.rets) == 1 && packetcontract.PacketContract.ABI.UnpackIntoInterface(&result, "onRecvPacket", w.evm.rets[0]) == nil)
 		resAck, e2 := packettypes.NewAcknowledgement(result.Code, result.Result, result.Message, relayer, p.FeeOption).ABIPack()
 		rt.Assume(e2 == nil)
 		rt.Assert("R2-ack-carries-the-contract's-result", rt.BytesEq(ack, hashOf(resAck)))
+		if result.Code != 0 {
+			// the contract answered with a failure code and no EVM error: the source refunds on every non-zero code
+			// (VerifC03AckOutcome A1), so whatever the callback did before it gave up must not be committed
+			rt.Reach("refund-by-result-code")
+			rt.Assert("R1-failure-code-leaves-no-effect", committed == 0)
+		} else {
+			rt.Reach("delivered-path")
+			rt.Assert("R2-delivered-effects-committed-once", committed == 1 && ncb == 1)
+		}
 	}
 }
 
